@@ -4,7 +4,7 @@
    circularly) at one position of the circle s only.  An enzyme is ANY (site, off, ovh): any
    recognition word, any cut offset, any overhang length. *)
 From MV Require Import Base RotLemmas Regex RegexLemmas Shape ShapeLemmas Typing TypingLemmas TotalLemmas
-                       ShapeTyping PartLemmas Anchors Canonical StrandLemmas Assembly AssemblyLemmas Pipeline PipelineLemmas ProductLemmas.
+                       ShapeTyping PartLemmas Anchors Canonical StrandLemmas Assembly AssemblyLemmas Pipeline PipelineLemmas ProductLemmas EndToEnd.
 Local Open Scope nat_scope.
 
 (* the module of the formal definition: site . x . o5 . t . o3 . y . rc(site) . backbone with
@@ -103,6 +103,71 @@ Theorem C01_two_sites_unique : forall (site rsite : list code) (off ovh : nat) s
   occurs_once site s -> occurs_once rsite s -> unique_occ (shape_pat sh) s.
 Proof. exact framed_unique_occ. Qed.
 Print Assumptions C01_two_sites_unique.
+
+(* END TO END, from the raw plasmids to the documented formula. For ANY enzyme e (any site word,
+   cut offset, overhang length), a vector plasmid v and ANY number of module plasmids of the
+   formal definition (EndToEnd.mplasmid_ok / vplasmid_ok: site . x . o5 . t . o3 . y . rc(site) .
+   backbone with |t| >= 2, resp. the vector layout with a backbone of >= 2 letters, spacers and
+   overhangs of the enzyme's lengths, the site and its reverse complement once each on the circle),
+   every plasmid read from ANY origin (rotr k), the modules given in ANY order: if in some order cs
+   their overhangs chain from the vector's downstream overhang to its upstream overhang (path), no
+   module starts with the vector's upstream overhang, and the start overhangs are clash-free,
+   vector.assemble(modules) as modelled from the raw sequences returns exactly
+       o5_1 . t_1 . o5_2 . t_2 ... o5_q . t_q . o_up . backbone
+   (each junction overhang once, no site, no spacer, no module backbone, no placeholder), uses every
+   module and leaves none unused. *)
+Theorem C01_end_to_end : forall e v kv (l : list (mplasmid * Z)) (cs : list smod),
+  0 < length (esite e) -> vplasmid_ok e v -> Forall (mplasmid_ok e) (map fst l) ->
+  let ms := number 0 (map fst l) in
+  Permutation.Permutation ms cs ->
+  path (okey (qOdn v)) (map keys_of cs) (okey (qOup v)) ->
+  okey (qOup v) <> okey (qOdn v) ->
+  Forall (fun m => okey (so5 m) <> okey (qOup v)) cs ->
+  clash_free rc_codes (map tmod_of ms) ->
+  assemble_raw (generic_cls RVector e) (rotr kv (vword v)) (map (marg e) l) =
+    Product (concat (map frag cs) ++ (qOup v ++ vbackbone v)) (map sid cs) [].
+Proof. exact end_to_end. Qed.
+Print Assumptions C01_end_to_end.
+
+(* its hypotheses are satisfiable: a BsaI vector and two modules, the vector read from origin 7,
+   the modules given in the order (second, first) and read from origins 5 and -3; the theorem
+   applies and gives the product CTATCC.AATGACA.GCTT.CCAA with both modules used *)
+Example C01_end_to_end_example :
+  let mk := map (fun x => L x true) in
+  let e := E [cG;cG;cT;cC;cT;cC] 1 4 in
+  let S := mk [cG;cG;cT;cC;cT;cC] in let R := mk [cG;cA;cG;cA;cC;cC] in
+  let m1 := MP S (mk [cA]) (mk [cC;cT;cA;cT]) (L cC true) [] (L cC true) (mk [cA;cA;cT;cG]) (mk [cT]) R (mk [cA;cT]) in
+  let m2 := MP S (mk [cA]) (mk [cA;cA;cT;cG]) (L cA true) (mk [cC]) (L cA true) (mk [cG;cC;cT;cT]) (mk [cT]) R (mk [cT;cA]) in
+  let v := VP (L cA true) (mk [cC;cT;cA;cT]) (mk [cT]) R (mk [cT;cT;cT;cT]) S (mk [cA]) (mk [cG;cC;cT;cT]) (L cC true) (mk [cC;cA]) in
+  let l := [(m2, 5%Z); (m1, (-3)%Z)] in
+  let cs := [smod_of 1 m1; smod_of 0 m2] in
+  assemble_raw (generic_cls RVector e) (rotr 7 (vword v)) (map (marg e) l) =
+    Product (mk [cC;cT;cA;cT;cC;cC; cA;cA;cT;cG;cA;cC;cA; cG;cC;cT;cT; cC;cC;cA;cA]) [1; 0] [].
+Proof.
+  intros mk e S R m1 m2 v l cs.
+  assert (H := C01_end_to_end e v 7 l cs).
+  cbv zeta in H. rewrite H; [reflexivity|..].
+  - cbn; lia.
+  - apply vplasmid_okb_sound. vm_compute. reflexivity.
+  - repeat constructor; apply mplasmid_okb_sound; vm_compute; reflexivity.
+  - cbn. apply Permutation.perm_swap.
+  - cbn. repeat split; reflexivity.
+  - cbn. discriminate.
+  - repeat constructor; cbn; discriminate.
+  - apply clash_freeb_sound. vm_compute. reflexivity.
+Qed.
+
+(* the same instance evaluated: the model computes what the theorem says *)
+Example C01_end_to_end_computed :
+  let mk := map (fun x => L x true) in
+  let e := E [cG;cG;cT;cC;cT;cC] 1 4 in
+  let S := mk [cG;cG;cT;cC;cT;cC] in let R := mk [cG;cA;cG;cA;cC;cC] in
+  let m1 := MP S (mk [cA]) (mk [cC;cT;cA;cT]) (L cC true) [] (L cC true) (mk [cA;cA;cT;cG]) (mk [cT]) R (mk [cA;cT]) in
+  let m2 := MP S (mk [cA]) (mk [cA;cA;cT;cG]) (L cA true) (mk [cC]) (L cA true) (mk [cG;cC;cT;cT]) (mk [cT]) R (mk [cT;cA]) in
+  let v := VP (L cA true) (mk [cC;cT;cA;cT]) (mk [cT]) R (mk [cT;cT;cT;cT]) S (mk [cA]) (mk [cG;cC;cT;cT]) (L cC true) (mk [cC;cA]) in
+  assemble_raw (generic_cls RVector e) (rotr 7 (vword v)) (map (marg e) [(m2, 5%Z); (m1, (-3)%Z)]) =
+    Product (mk [cC;cT;cA;cT;cC;cC; cA;cA;cT;cG;cA;cC;cA; cG;cC;cT;cT; cC;cC;cA;cA]) [1; 0] [].
+Proof. vm_compute. reflexivity. Qed.
 
 (* non-vacuity and sharpness: a BsaI module with a 2-nt target is accepted at rotation 3 and
    reports what CML says; with a 1-nt target it is rejected *)
